@@ -80,9 +80,10 @@ def hook_wire(h):
 class WalkCase:
     """items: list of dict(before, after, tree | None (missing item)); hooks: None | True (succeeds) | False (exits 3)"""
 
-    def __init__(self, sb, items):
+    def __init__(self, sb, items, fail_seed=0):
         self.sb = sb
         self.items = items
+        self.fail_seed = fail_seed
         self.src = sb.path("src")
         self.st = sb.path("st")
         self.log = sb.path("hooks.log")
@@ -101,7 +102,9 @@ class WalkCase:
     def hook_cmd(self, tag, i, h):
         cmd = "echo %s%d >> %s" % (tag, i, self.log)
         if h is False:
-            cmd += "; exit 3"
+            # a failing hook: non-zero exit status, or death from a signal (no exit status at all)
+            style = (i * 2 + (0 if tag == "B" else 1) + getattr(self, "fail_seed", 0)) % 4
+            cmd += ("; exit 3", "; kill -9 $$", "; kill -TERM $$", "; kill -SEGV $$")[style]
         return cmd
 
     def write_config(self):
